@@ -4,6 +4,7 @@ let () =
   | _ :: "token" :: _ -> M_token.run ()
   | _ :: "cping" :: _ -> M_cping.run ()
   | _ :: "async" :: _ -> M_async.run ()
+  | _ :: "asyncw" :: _ -> M_asyncw.run ()
   | _ :: "cexec" :: _ -> M_cexec.run ()
   | _ :: "crun" :: _ -> M_crun.run ()
   | _ :: "cchan" :: _ -> M_cchan.run ()
